@@ -90,6 +90,7 @@ type Obj struct {
 	Type types.Type
 	Name string
 	Prov string // fresh | param:<n> | global:<n> | recv
+	BornIn *ssa.BasicBlock // header of the innermost loop in whose body the object was allocated (nil: outside loops)
 	Guard *Obj  // the mutex object guarding this object (maps / fields living next to a mutex)
 }
 
